@@ -17,6 +17,7 @@ package main
 import (
 	"flag"
 	"fmt"
+	"net"
 	"os"
 	"reflect"
 	"strings"
@@ -108,12 +109,13 @@ func (c *controller) SetBalancer(l log.Logger, name string, svcRo *v1.Service, _
 		}
 	}
 
-	if len(prevIPs) != 0 && !c.isServiceAllocated(name) {
+	if releasedIPs(prevIPs, c.ips.IPs(name)) {
 		// Only reprocess all if the previous IP(s) are still contained within a pool.
 		if c.ips.PoolForIP(prevIPs) != nil {
-			// convergeBalancer may deallocate our service and this means it did it.
-			// if the service was deallocated, it may have left room
-			// for another one, so we reprocess
+			// convergeBalancer may deallocate our service, or move it to
+			// other IP(s), and this means it did it.
+			// if an IP was released, it may have left room
+			// for another service, so we reprocess
 			level.Info(l).Log("event", "serviceUpdated", "msg", "removed loadbalancer from service, services will be reprocessed")
 			syncStateRes = controllers.SyncStateReprocessAll
 		}
@@ -139,6 +141,24 @@ func (c *controller) SetBalancer(l log.Logger, name string, svcRo *v1.Service, _
 
 	level.Info(l).Log("event", "serviceUpdated", "msg", "service is not updated")
 	return syncStateRes
+}
+
+// releasedIPs returns true if at least one of the previously held IPs is
+// not held anymore.
+func releasedIPs(prev, cur []net.IP) bool {
+	for _, p := range prev {
+		held := false
+		for _, c := range cur {
+			if p.Equal(c) {
+				held = true
+				break
+			}
+		}
+		if !held {
+			return true
+		}
+	}
+	return false
 }
 
 func (c *controller) SetPools(l log.Logger, pools *config.Pools) controllers.SyncState {
